@@ -1,4 +1,7 @@
-"""Discharging obligations: z3 (python API, rlimit budget) first, /usr/bin/cvc5 on z3's unknowns."""
+"""Discharging obligations: z3 5.1.0 (python API, rlimit budget) searches for the proof; every `unsat` it reports counts only once a
+second, independently built solver (cvc5 1.0.3, else the Debian z3 4.8.12 binary) reaches `unsat` on the same SMT-LIB text."""
+import hashlib
+import re
 import subprocess
 import tempfile
 import time
@@ -8,29 +11,97 @@ import z3
 Z3_RLIMIT = int(os.environ.get("PYVC_RLIMIT", 40_000_000))
 Z3_TIMEOUT_MS = int(os.environ.get("PYVC_TIMEOUT_MS", 120_000 if os.environ.get("VERIF_TIER") == "thorough" else 20_000))
 CVC5 = "/usr/bin/cvc5"
+Z3_OLD = "/usr/bin/z3"
+CONFIRM = os.environ.get("PYVC_CONFIRM", "1") != "0"
+CONFIRM_S = int(os.environ.get("PYVC_CONFIRM_S", 20))
+_CONF_MEMO = {}
+_CONF = []          # confirmation outcomes of the obligation being solved: (solver or None, 'unsat' | 'sat' | 'unconfirmed')
 
 
-def _nested_instances(body, cands, guard=None, depth=0):
-    """Instances of universally quantified sub-formulas in positive positions (under And / the consequent of Implies) of `body`
-    at the candidate terms: consequences of `body`, handed to the solver as extra hints."""
-    out = []
-    if depth > 3:
-        return out
-    if z3.is_and(body):
-        for ch in body.children():
-            out.extend(_nested_instances(ch, cands, guard, depth))
-    elif z3.is_implies(body):
-        g = body.arg(0) if guard is None else z3.And(guard, body.arg(0))
-        out.extend(_nested_instances(body.arg(1), cands, g, depth))
-    elif z3.is_quantifier(body) and body.is_forall() and body.num_vars() == 1 and body.var_sort(0) == z3.IntSort():
-        for c in cands:
-            inst = z3.substitute_vars(body.body(), c)
-            out.append(inst if guard is None else z3.Implies(guard, inst))
-            out.extend(_nested_instances(inst, cands, guard, depth + 1))
-    return out
+def _run_solver(cmd, seconds):
+    try:
+        out = subprocess.run(cmd, capture_output=True, text=True, timeout=seconds + 5)
+        words = out.stdout.split()
+        return words[0] if words else "unknown"
+    except Exception:
+        return "unknown"
 
 
-def _check(assertions, timeout_ms, seeds=(0, 7, 23)):
+def cvc5_text(text):
+    """z3 prints applications of recursive functions inside define-funs-rec as ((_ f 0) args); cvc5 wants (f args)."""
+    return "(set-logic ALL)\n" + re.sub(r"\(_ ([A-Za-z_][\w!.]*) 0\)", r"\1", text)
+
+
+def _core_text(text, timeout_ms):
+    """The SMT-LIB text of an unsat core of `text` as z3 5.1.0 reports it (assertions tracked one by one): a subset of the assertions,
+    hence a weaker set of hypotheses — if the second solver finds the subset unsatisfiable, so is the whole."""
+    try:
+        ctx = z3.Context()
+        asserts = z3.parse_smt2_string(text, ctx=ctx)
+        s = z3.Solver(ctx=ctx)
+        s.set("timeout", max(5_000, min(timeout_ms, 30_000)))
+        names = {}
+        for i, a in enumerate(asserts):
+            b = z3.Bool(f"trk!{i}", ctx=ctx)
+            names[str(b)] = a
+            s.assert_and_track(a, b)
+        if s.check() != z3.unsat:
+            return None
+        s2 = z3.Solver(ctx=ctx)
+        s2.add(*[names[str(c)] for c in s.unsat_core()])
+        return s2.to_smt2()
+    except z3.Z3Exception:
+        return None
+
+
+def _confirm(text, budget=None):
+    """A second opinion on an `unsat` of z3 5.1.0 (which answered `unsat` on a satisfiable query with seq.extract under a quantifier
+    during development, see DESIGN §10.13): cvc5 1.0.3 and z3 4.8.12 run side by side on the same text; the first `unsat` confirms,
+    a `sat` from either is a disagreement, and the obligation stays undecided in both cases where no `unsat` arrives in time."""
+    budget = budget or CONFIRM_S
+    key = hashlib.sha1(text.encode()).hexdigest() + str(budget)
+    if key in _CONF_MEMO:
+        return _CONF_MEMO[key]
+    t0 = time.time()
+    res = (None, "unconfirmed")
+    with tempfile.TemporaryDirectory(prefix="pyvc-c-") as d:
+        procs = {}
+        if os.path.exists(CVC5):
+            q = os.path.join(d, "q.cvc5.smt2")
+            with open(q, "w") as f:
+                f.write(cvc5_text(text))
+            for name, extra in (("cvc5-1.0.3", []), ("cvc5-1.0.3 --cegqi-all", ["--cegqi-all"])):
+                procs[name] = subprocess.Popen([CVC5, "--lang=smt2", "--strings-exp", f"--tlimit={budget * 1000}", *extra, q],
+                                               stdout=subprocess.PIPE, stderr=subprocess.DEVNULL, text=True)
+        if os.path.exists(Z3_OLD):
+            q = os.path.join(d, "q.smt2")
+            with open(q, "w") as f:
+                f.write(text)
+            procs["z3-4.8.12"] = subprocess.Popen([Z3_OLD, f"-T:{budget}", q], stdout=subprocess.PIPE, stderr=subprocess.DEVNULL, text=True)
+        answers = {}
+        while procs and time.time() - t0 < budget + 5:
+            for name, pr in list(procs.items()):
+                if pr.poll() is not None:
+                    words = (pr.stdout.read() or "").split()
+                    answers[name] = words[0] if words else "unknown"
+                    del procs[name]
+            if "unsat" in answers.values() or "sat" in answers.values():
+                break
+            time.sleep(0.01)
+        for pr in procs.values():
+            pr.kill()
+            pr.wait()
+        for verdict in ("sat", "unsat"):        # a disagreement outranks a confirmation
+            hit = sorted(n for n, a in answers.items() if a == verdict)
+            if hit:
+                res = (hit[0].split()[0], verdict)
+                break
+    res = res + (round(time.time() - t0, 3),)
+    _CONF_MEMO[key] = res
+    return res
+
+
+def _check(assertions, timeout_ms, seeds=(0, 7, 23), confirm=True):
     """Solve in a fresh z3 context, from the SMT-LIB text of the assertions: the verdict then does not depend on the internal term
     numbering left behind by VC generation (which varies from run to run with Python's memory management)."""
     s0 = z3.Solver()
@@ -48,7 +119,32 @@ def _check(assertions, timeout_ms, seeds=(0, 7, 23)):
         # 'unknown' is retried with other seeds (quantifier instantiation is heuristic); sat / unsat are final
         if r != z3.unknown or timeout_ms <= 2_000:
             break
+    if r == z3.unsat and confirm and CONFIRM:
+        res = _confirm(text, min(CONFIRM_S, 4))
+        if res[1] == "unconfirmed":         # too big for the second solvers as it stands: hand them the unsat core z3 reports
+            t1 = time.time()
+            sub = _core_text(text, timeout_ms)
+            if sub is not None:
+                r2 = _confirm(sub)
+                res = (r2[0] and r2[0] + " (on z3's unsat core)", r2[1], round(res[2] + time.time() - t1, 3))
+        _CONF.append(res)
+        if res[1] != "unsat":       # not confirmed (or contradicted): this query proves nothing; the caller's later stages may still find
+            r = z3.unknown          # a formulation both solvers accept
+            s = _Unconfirmed(s, res)
     return r, s
+
+
+class _Unconfirmed:
+    """Stands in for the solver object of a query whose `unsat` was not confirmed."""
+    def __init__(self, s, res):
+        self.s, self.res = s, res
+
+    def reason_unknown(self):
+        return ("z3-5.1.0 says unsat, " + (f"{self.res[0]} says sat (solver disagreement)" if self.res[1] == "sat" else
+                                          "neither cvc5-1.0.3 nor z3-4.8.12 confirms it within the budget"))
+
+    def to_smt2(self):
+        return self.s.to_smt2()
 
 
 _SK = [0]
@@ -348,6 +444,7 @@ def solve(ob, use_cvc5=True, fast=False):
     """Sets ob.verdict in {'proved','refuted','unknown'} (for expect='sat': 'reachable'/'vacuous'/'unknown')."""
     t0 = time.time()
     _SK[0] = 0
+    del _CONF[:]
     if ob.expect == "unsat":
         # portfolio: the plain query first (short budget), then the version with skolemisation, conjunct splitting and instantiation hints
         r, s = _check(list(ob.conds) + [z3.Not(ob.goal)], min(Z3_TIMEOUT_MS, 2_000), seeds=(0,))
@@ -377,9 +474,12 @@ def solve(ob, use_cvc5=True, fast=False):
                 r, s = _prove(list(ob.conds), ob.goal, level=3, timeout_ms=late, seeds=(0,))
     else:
         # reachability checks (cover / canary) only have to rule out vacuity: 'unknown' is acceptable, so they get a short budget
-        r, s = _check(list(ob.conds), 2_000)
+        r, s = _check(list(ob.conds), 2_000, confirm=False)
     ob.seconds = time.time() - t0
     ob.backend = "z3-" + z3.get_version_string()
+    ob.confirm_seconds = round(sum(c[2] for c in _CONF), 3)
+    if r == z3.unsat and ob.expect == "unsat" and CONFIRM:
+        ob.backend += " + " + "/".join(sorted({c[0] for c in _CONF if c[1] == "unsat"}))
     if ob.expect == "sat":
         ob.verdict = "reachable" if r == z3.sat else ("vacuous" if r == z3.unsat else "unknown")
         if r == z3.unknown:
@@ -400,24 +500,31 @@ def solve(ob, use_cvc5=True, fast=False):
         return ob
     ob.verdict = "unknown"
     ob.reason = s.reason_unknown()
-    if use_cvc5 and not fast and os.path.exists(CVC5):
+    if use_cvc5 and not fast and os.path.exists(CVC5) and not isinstance(s, _Unconfirmed):
+        # z3 5.1.0 left the last query open: cvc5 may decide it; its `unsat` in turn needs z3 4.8.12 to agree
         try:
-            smt = "(set-logic ALL)\n" + s.to_smt2()
-            with tempfile.NamedTemporaryFile("w", suffix=".smt2", delete=False) as f:
-                f.write(smt)
-                path = f.name
-            t0 = time.time()
-            out = subprocess.run([CVC5, "--strings-exp", "--tlimit=10000", path], capture_output=True, text=True, timeout=25)
-            os.unlink(path)
-            first = out.stdout.strip().splitlines()[0] if out.stdout.strip() else ""
+            text = s.to_smt2()
+            with tempfile.TemporaryDirectory(prefix="pyvc-c-") as d:
+                q = os.path.join(d, "q.cvc5.smt2")
+                with open(q, "w") as f:
+                    f.write(cvc5_text(text))
+                t0 = time.time()
+                first = _run_solver([CVC5, "--lang=smt2", "--strings-exp", "--tlimit=10000", q], 20)
+                if first == "unsat" and CONFIRM:
+                    q2 = os.path.join(d, "q.smt2")
+                    with open(q2, "w") as f:
+                        f.write(text)
+                    if _run_solver([Z3_OLD, f"-T:{CONFIRM_S}", q2], CONFIRM_S) != "unsat":
+                        first = "unconfirmed"
+                        ob.reason = "cvc5-1.0.3 says unsat, z3-4.8.12 does not confirm it within the budget"
             if first == "unsat":
                 ob.verdict = "proved"
-                ob.backend = "cvc5-1.0.3"
+                ob.backend = "cvc5-1.0.3 + z3-4.8.12" if CONFIRM else "cvc5-1.0.3"
                 ob.seconds = time.time() - t0
             elif first == "sat":
                 ob.verdict = "refuted"
                 ob.backend = "cvc5-1.0.3"
                 ob.seconds = time.time() - t0
-        except Exception as ex:  # cvc5 refuses recursive datatypes etc.: stays unknown
+        except Exception as ex:
             ob.reason = f"{getattr(ob, 'reason', '')}; cvc5: {ex}"
     return ob
